@@ -229,6 +229,18 @@ func dedupePaths(in []string) []string {
 		if strings.HasPrefix(s, last+"/") {
 			continue
 		}
+		// names with bytes that sort below "/" (e.g. "a-b") can sit between a
+		// path and its descendants, so also check the entries kept before last
+		inside := false
+		for _, o := range out {
+			if strings.HasPrefix(s, o+"/") {
+				inside = true
+				break
+			}
+		}
+		if inside {
+			continue
+		}
 		out = append(out, s)
 		last = s
 	}
